@@ -68,6 +68,33 @@ def line_fn_map(text):
     return m
 
 
+def hint_lines(text):
+    """Lines of the generated file that belong to spliced proof hints (between the //@@hint markers) or to proof fns (lemmas).
+    A failure located there is a failed *hint*; a failure anywhere else (ensures, invariant, decreases, a real call's precondition,
+    a real assert!, arithmetic, indexing) is a failed *contract*."""
+    hs = set()
+    inside = False
+    in_proof_fn = False
+    depth = 0
+    for no, ln in enumerate(text.split('\n'), 1):
+        t = ln.strip()
+        if t == vx.HINT_BEGIN:
+            inside = True
+        if inside:
+            hs.add(no)
+        if t == vx.HINT_END:
+            inside = False
+        code = ln.split('//')[0]
+        if depth == 0 and re.search(r'\bproof\s+fn\b', code):
+            in_proof_fn = True
+        if in_proof_fn:
+            hs.add(no)
+        depth += code.count('{') - code.count('}')
+        if in_proof_fn and depth == 0 and '}' in code:
+            in_proof_fn = False
+    return hs
+
+
 def parse_diagnostics(stderr, fname):
     """Split rustc-style stderr into blocks: [{'level','msg','line','text'}]"""
     blocks = []
@@ -221,9 +248,13 @@ def _run_unit(unit, workdir, canary=False, rlimit=None, timeout=900, tpl_path=No
         res['reason'] = 'anchor(s) lost, proof hints dropped, verification then failed: ' + '; '.join(lost)[:600]
         return res
     res['status'] = 'fail'
+    hl = hint_lines(text)
     for b in ver:
         res['failed'].append({'function': lf.get(b['line']) if b['line'] else None, 'line': b['line'], 'msg': b['msg'],
+                              'level': 'hint' if (b['line'] in hl) else 'contract',
                               'diagnostic': b['text'][:3000]})
+    # only proof hints failed: the contracts themselves were not refuted (the hints may simply no longer fit the code)
+    res['hint_only'] = bool(res['failed']) and all(f['level'] == 'hint' for f in res['failed'])
     res['failed_functions'] = failed_fns
     if rl:
         res['rlimit_exceeded'] = True
